@@ -32,8 +32,12 @@ impl<'js> IntoJs<'js> for ActValue {
             serde_json::Value::Bool(v) => JsValue::new_bool(ctx.clone(), v),
             serde_json::Value::Number(v) => {
                 if v.is_i64() {
-                    let v = v.as_i64().unwrap_or_default() as i32;
-                    JsValue::new_int(ctx.clone(), v)
+                    // a js int has 32 bits: wider integers travel as doubles (exact up to 2^53)
+                    let v = v.as_i64().unwrap_or_default();
+                    match i32::try_from(v) {
+                        Ok(v) => JsValue::new_int(ctx.clone(), v),
+                        Err(_) => JsValue::new_float(ctx.clone(), v as f64),
+                    }
                 } else if v.is_f64() {
                     let v = v.as_f64().unwrap_or_default();
                     JsValue::new_float(ctx.clone(), v)
@@ -76,7 +80,15 @@ impl<'js> FromJs<'js> for ActValue {
             }
             rquickjs::Type::Bool => Ok(serde_json::json!(v.as_bool().unwrap_or(false))),
             rquickjs::Type::Int => Ok(serde_json::json!(v.as_int().unwrap_or(0))),
-            rquickjs::Type::Float => Ok(serde_json::json!(v.as_float().unwrap_or(0.0))),
+            rquickjs::Type::Float => {
+                let f = v.as_float().unwrap_or(0.0);
+                // an integral double that is exact comes back as the integer it stands for
+                if f.fract() == 0.0 && f.abs() <= 9007199254740992.0 {
+                    Ok(serde_json::json!(f as i64))
+                } else {
+                    Ok(serde_json::json!(f))
+                }
+            }
             rquickjs::Type::String => Ok(serde_json::json!(
                 v.as_string()
                     .unwrap()
